@@ -133,6 +133,34 @@ def _build_pool():
     pth = os.path.join(d, 'uamivgen_noext')
     open(pth, 'wb').write(camx.ref_encode_uamiv(cu))
     add('uamivgen_noext', pth)
+    # a two-step gridded file (its TSTEP is marked unlimited; the humidity file hum_b has a TSTEP of the same length)
+    cu2 = camx.gen_uamiv_at(r0, 2001, 12, 3)
+    while len(cu2['tflag']) != 2:
+        cu2 = camx.gen_uamiv_at(r0, 2001, 12, 3)
+    for suffix, ext in (('own', '.uamiv'), ('noext', '')):
+        pth = os.path.join(d, 'uamiv2_%s%s' % (suffix, ext))
+        open(pth, 'wb').write(camx.ref_encode_uamiv(cu2))
+        add('uamiv2_%s' % suffix, pth)
+    # GEOS-Chem punch files in a directory of their own (with their tables): an ordinary one, and one whose second time
+    # block lacks the first tracer (only the block-walking reader bpch2 reads it)
+    from .. import bpchfmt as B
+    bd = os.path.join(d, 'bp')
+    os.makedirs(bd)
+    cb = B.gen(r0)
+    while len(cb['blocks']) < 2 or cb['nt'] != 2 or cb['tperm'] != [0, 1]:
+        cb = B.gen(r0)
+    B.tables(cb, bd)
+    import copy as _copy
+    c1 = _copy.deepcopy(cb)
+    c1['nt'], c1['data'], c1['tperm'] = 1, cb['data'][:1], [0]
+    c2 = _copy.deepcopy(cb)
+    c2['nt'], c2['tperm'], c2['tau0'] = 1, [0], cb['tau0'] + cb['dtau']
+    c2['blocks'], c2['data'] = cb['blocks'][1:], [cb['data'][1][1:]]
+    for key, fn, byts in (('bpchp_own', 'plain.bpch', B.encode(cb)), ('bpchp_noext', 'plainfile', B.encode(cb)),
+                          ('bpchr_own', 'ragged.bpch', B.encode(c1) + B.encode(c2)[136:])):
+        pth = os.path.join(bd, fn)
+        open(pth, 'wb').write(byts)
+        add(key, pth)
     # files of a user format whose reader is registered in the middle of a history
     for suffix, ext in (('own', '.rawgrid'), ('noext', '')):
         pth = os.path.join(d, 'rawgrid_%s%s' % (suffix, ext))
@@ -182,7 +210,7 @@ def _clsname(c):
 def _digest(f):
     h = hashlib.sha1()
     for dk in f.dimensions:
-        h.update(('%s=%d;' % (dk, len(f.dimensions[dk]))).encode())
+        h.update(('%s=%d%s;' % (dk, len(f.dimensions[dk]), 'u' if f.dimensions[dk].isunlimited() else '')).encode())
     for vk in f.variables:
         v = f.variables[vk]
         arr = np.ma.filled(np.ma.asarray(v[...]), 0)
@@ -351,7 +379,13 @@ def gen(rng, tier):
     for h, pr in [([['x_uamivle', None]], 'uamiv_noext'), ([['x_uamivle', None]], 'uamivgen_noext'),
                   ([['uamiv_own', None]], 'x_uamivle'), ([['tab_own', None], ['x_uamivle', None], ['uamiv_own', None]], 'x_uamivle'),
                   ([['hum_a_own', None]], 'hum_b_noext'), ([['hum_b_noext', None]], 'hum_a_own'),
-                  ([['plain_own', None], [REG, None]], 'rawgrid_noext')]:
+                  ([['plain_own', None], [REG, None]], 'rawgrid_noext'),
+                  # a punch file only the fallback reader reads, then ordinary ones
+                  ([['bpchr_own', None]], 'bpchp_own'), ([['bpchp_own', None], ['bpchr_own', None]], 'bpchp_noext'),
+                  ([['bpchr_own', 'bpch']], 'bpchp_own'),
+                  # readers that mark a dimension unlimited before files with a dimension of the same name and length
+                  ([['uamiv2_own', None]], 'hum_b_own'), ([['uamiv2_noext', None], ['hum_b_noext', None]], 'hum_b_own'),
+                  ([['hum_b_own', None]], 'uamiv2_noext'), ([['uamiv2_own', None]], 'lateral_boundary_own')]:
         out.append(dict(hist=h, probe=pr))
     # the history that used to break: an .nc open before an extension-less netCDF probe
     out.append(dict(hist=[['plain_own', None]], probe='ioapi_noext'))
